@@ -170,6 +170,31 @@ def run(ctx):
             ctx.violation(dict(case=L.describe_case(c), at_result=res[0], layer='client.connector.collect'), res[1])
             break
     ctx.coverage['client_unbundling_histories'] = ncli
+    # a bundle whose members and replies pass 32 KiB (offsets need all 16 bits): 90 full-size Read Tag Fragmented members
+    big_tags = [dict(name='BIG', ty='DINT', scalar=False, n=200, addr=None, init=[('i', k * 3 - 7) for k in range(200)]),
+                dict(name='W', ty='INT', scalar=False, n=4, addr=None, init=[('i', 0)] * 4)]
+    members = [('readf', ('sym', 'BIG', (k * 7) % 60), 121, 0) for k in range(88)] + [('writef', ('sym', 'W', 0), 195, 2, 0, [('i', 5), ('i', 6)]), ('read', ('sym', 'W', None), 4)]
+    res = bundle_vs_single((488, big_tags, [('multi', members)]))
+    if res is not None:
+        ctx.violation(dict(case='one bundle of 90 members, about 43 kB of replies', at_request=res[0]), res[1])
+    ctx.coverage['big_bundle_members'] = len(members)
+    # the members of a bundle are decoded by closures deferred through the parser's post-processing list: with several sessions parsing
+    # bundles at once each closure must be run by the thread that registered it (the real dfa_post under generated interleavings, as in C09)
+    from props import c09
+    from vlib import core
+    trees = [c09.gen_events(ctx.rng) for _ in range(300 if ctx.thorough else 80)]
+    outs = core.run_model('concurrent', [[0, len(t)] + c09.enc_events(t) for t in trees])
+    for t, o in zip(trees, outs):
+        try:
+            log = c09.run_events_impl(t)
+        except Exception as e:
+            log = 'EXC %s' % type(e).__name__
+        mlog = [(o[1 + 2 * i], o[2 + 2 * i]) for i in range(o[0])]
+        if log != mlog:
+            ctx.violation(dict(events=t, closures_run=log, expected=mlog),
+                          'a bundle-decoding closure was run by another session\'s thread, out of order, twice or not at all (that session\'s bundle loses its members)')
+            break
+    ctx.coverage['closure_interleavings'] = len(trees)
     L.logix_check(ctx, 'C07', gen(ctx), extra_oracle=bundle_vs_single,
                   rule='seeded histories of 1-4 bundles (1-9 members mixing Read/Write Tag [Fragmented] and Get/Set Attribute Single, ~40% '
                        'invalid) interleaved with single requests, over random tag configurations; each history is also executed with every bundle '
